@@ -66,7 +66,8 @@ class C06(PropBase):
                 pops = [Variable(f"pi{i + 1}") for i in range(len(c["domains"]))]
                 return identify_target_outcomes(GG.to_y0(c["g"]), target_outcomes={GG.V(v) for v in c["Y"]}, target_interventions={GG.V(v) for v in c["X"]},
                                                 surrogate_outcomes={p: {GG.V(v) for v in d["W"]} for p, d in zip(pops, c["domains"])},
-                                                surrogate_interventions={p: {GG.V(v) for v in d["Z"]} for p, d in zip(pops, c["domains"])}), c["domains"]
+                                                surrogate_interventions=dict(reversed([(p, {GG.V(v) for v in d["Z"]}) for p, d in zip(pops, c["domains"])])) if len(pops) > 1 and len(c["g"]["dir"]) % 2
+                                                else {p: {GG.V(v) for v in d["Z"]} for p, d in zip(pops, c["domains"])}), c["domains"]
             if alg == "idstar":
                 from y0.algorithm.identify import id_star
                 return id_star(GEV.to_y0_letters(c["g"]), GEV.event_of(c["event"])), []
